@@ -883,8 +883,9 @@ def _plan_for(v, thorough):
     expandable = "$" in v or "~" in v
     plan = []
     for form in FORMS:
-        if not thorough and not (tiny or v in _PROBE_SET) and form in QUICK_TINY_ONLY:
-            continue  # (kept for the whole closure of the probes so that their failures can be reduced)
+        if form in QUICK_TINY_ONLY and not (tiny or v in _PROBE_SET) and (not thorough or len(v) > 2):
+            continue  # second members of a family: quick only tiny values, thorough up to length 2
+            # (kept for the whole closure of the probes so that their failures can be reduced)
         # base sweep: every value, middle position, default configuration
         if thorough and short:
             paths = PATHS
@@ -1073,7 +1074,7 @@ def run(ctx):
     by_path = {p: sum(r["by_path"][p] for r in res) for p in PATHS}
     by_kind = {k: sum(r["by_kind"][k] for r in res) for k in ("mid", "E0", "pos", "env", "kw", "ml")}
     if ctx.thorough:
-        plan_txt = "length<=2 and probes: middle position on all six delivery paths, $EXPAND_ENV_VARS=False and the 4 other positions on the unthreaded alias (length<=1 and the probes: on the three direct paths, $EXPAND_ENV_VARS=False also through the list alias); length 3: middle position on the unthreaded alias, plus with $EXPAND_ENV_VARS=False and (forms raw, at, atlist, macro) through the list alias when the value contains $ or ~"
+        plan_txt = f"length<=2 and probes: middle position on all six delivery paths, $EXPAND_ENV_VARS=False and the 4 other positions on the unthreaded alias (length<=1 and the probes: on the three direct paths, $EXPAND_ENV_VARS=False also through the list alias); length 3: middle position on the unthreaded alias, plus with $EXPAND_ENV_VARS=False and (forms raw, at, atlist, macro) through the list alias when the value contains $ or ~, without the forms {list(QUICK_TINY_ONLY)}"
     else:
         plan_txt = f"middle position on the unthreaded alias for every value; length<=1 and the probes on all six delivery paths (probes longer than 1: five, without list-alias->child), with $EXPAND_ENV_VARS=False (also through the list alias when the value contains $ or ~), and in the 4 other positions (redirect/capture positions on the three direct paths for length<=1); length-2 values containing $ or ~ also through the list alias and with $EXPAND_ENV_VARS=False; the forms {list(QUICK_TINY_ONLY)} only for length<=1 and the probes' closure"
     plan_txt += f"; part B: variable Q set to every non-empty sequence of <= {maxlen} of the tokens {list(VTOKENS)} ($W='{ENV_W}', files matching the globs present) and used as {[a for a, _, _ in ENV_FORMS.values()]} (%s = the same text written literally, expected verbatim) on the unthreaded alias directly and through the list alias (single tokens: all six paths), expected = the value substituted verbatim exactly once, 3 s alarm per execution"
